@@ -228,8 +228,13 @@ func cmdRun(prop, tier string) int {
 	go func() { ptDone <- passThroughTests(s) }()
 
 	// self tests of the simulator (stub validation, determinism) — quick versions
-	if err := selfTests(s, prop, seed, tier == "thorough"); err != nil {
-		return infra("simulator self-test failed: %v", err)
+	// A failing self-test never turns into a pass: the run ends with exit 2 unless the check
+	// proper finds a violation (a tree that keeps state between parses can make the simulated and
+	// the real run of the stub validation interfere; that is the tree's doing, and the oracles
+	// below are the ones to say so).
+	selfTestErr := selfTests(s, prop, seed, tier == "thorough")
+	if selfTestErr != nil {
+		fmt.Printf("simcheck: simulator self-test failed (the run continues; it cannot end with a pass): %s\n", oneLine(selfTestErr.Error(), 400))
 	}
 
 	nw := runtime.NumCPU()
@@ -391,6 +396,9 @@ func cmdRun(prop, tier string) int {
 	}
 	fmt.Printf("simcheck: property=%s tier=%s cases=%v executions=%v violations=%d (unlisted %d) wall=%.1fs\n",
 		prop, tier, stats["cases_run"], stats["executions"], len(viols), nUnknown, time.Since(start).Seconds())
+	if exit == 0 && selfTestErr != nil {
+		return infra("simulator self-test failed and the check found nothing: %v", selfTestErr)
+	}
 	return exit
 }
 
